@@ -7,6 +7,8 @@ faults).  Part A (pure, stated as such in DESIGN.md): generated routing-tree
 sets -> routing_tree_to_tables compared with an independent per-chip fold; the
 tables produced in part A are loaded through part B.
 """
+import collections
+
 from rigsim.machine import N_RTR, RouterEntry
 from rigsim.seams import rig_module
 from .common import Ctl, rigcall, MC_MODULES, TIMEOUTS
@@ -379,14 +381,32 @@ class RtrEngine(object):
     def op_load(self, tables=None, heal=False):
         t, w, c, m = self.t, self.w, self.c, self.m
         app_id = 1 + t.edge(255)
+        if getattr(self, "last_app_id", None) is not None and t.draw(2):
+            # the same application loads more tables later
+            app_id = self.last_app_id
+        self.last_app_id = app_id
         multi = tables is not None
-        if not multi:
+        if not multi and not heal and len(self.chip_list) > 1 and \
+                t.draw(3) == 0:
+            # one call loading several chips (dict order = loading order)
+            multi = True
+            tables = collections.OrderedDict()
+            for _ in range(2 + t.draw(3)):
+                xy = self.chip_list[t.draw(len(self.chip_list))]
+                if xy not in tables:
+                    tables[xy] = self.gen_entries()[:30]
+            w.probe("several_chips_in_one_call")
+        if tables is None:
             xy = self.chip_list[t.draw(len(self.chip_list))]
             tables = {xy: self.gen_entries() if not heal else
                       self.gen_entries()[:50] or self.gen_entries_nonempty()}
         before = {xy: self.router_snapshot(m.chips[xy]) for xy in m.chips}
         inject = not heal and t.chance(0.1)
         self.inject_fail = inject
+        # (in a several-chip call the allocation may fail on any one chip,
+        # after others have been loaded)
+        self.inject_chip = list(tables)[t.draw(len(tables))] \
+            if inject and len(tables) > 1 else None
         if inject:
             w.fault("alloc_failure_injected")
         label = "load(%s, app=%d)" % (
@@ -447,6 +467,18 @@ class RtrEngine(object):
                     w.violate("RT", "SpiNNakerRouterError raised but a block "
                               "stayed allocated on chip %r" % (failed_xy,),
                               kind="error-but-allocated")
+            # whatever the routers held before the call is still there (on
+            # the chips loaded before the failing one too)
+            for xy, ch2 in m.chips.items():
+                now2 = self.router_snapshot(ch2)[0]
+                for i in range(N_RTR):
+                    if before[xy][0][i] is not None and \
+                            now2[i] != before[xy][0][i]:
+                        w.violate("RT", "SpiNNakerRouterError for chip %r, "
+                                  "and entry %d of chip %r - installed "
+                                  "before this call - is gone or changed"
+                                  % (failed_xy, i, xy),
+                                  kind="error-removed-earlier-entries")
             w.ops[-1] += " -> SpiNNakerRouterError%r" % (failed_xy,)
         else:
             w.probe("op_timeout")
@@ -566,8 +598,10 @@ class RtrEngine(object):
             m.vary_layout()
             w.probe("per_chip_layout")
         self.inject_fail = False
-        m.alloc_fail_hook = lambda chip, what, n: (what == "rtr" and
-                                                   self.inject_fail)
+        self.inject_chip = None
+        m.alloc_fail_hook = lambda chip, what, n: (
+            what == "rtr" and self.inject_fail and
+            self.inject_chip in (None, (chip.x, chip.y)))
         # pre-fragment the routers
         for xy, ch in m.chips.items():
             k = t.draw_small(6, 0.6)
